@@ -6,6 +6,7 @@ R07.2 (K1 + order): inside report_connection_closed the send to the manager lies
        every exit that does not stem from that send failing, and the protocol fan-out loop has no exit.
 R07.3 (K5 sibling): report_connection_established must not leave its fan-out loop on a single
        failed protocol send (its sibling report_connection_closed continues).
+R07.5 (K4, at most once): one close-report call site per connection loop closure, outside loops (tcp/websocket/quic)
 R07.4 (K2): TransportManager::on_connection_closed yields TransportEvent::ConnectionClosed only over the
        'true' result of PeerState::on_connection_closed.
 """
@@ -53,6 +54,41 @@ def r07_1(ctx, fx):
                 ctx.ob("R07.1", "%s/covered-exit:%s@bb%d" % (short(key), "|".join(sorted(shapes)), node[0]), True,
                        site=fn.site(node), detail="every path to this exit passes the close report", cfg=fx.cfg)
     ctx.anchor("R07.1", "connection loops", n, 1 if fx.cfg == "default" else 4, cfg=fx.cfg)
+
+
+def _local_closure(fx, it, fn, limit=400):
+    """crate-local bodies transitively executed by fn (direct calls and polls of local coroutines)"""
+    seen = {fn.key: fn}
+    work = [fn]
+    while work and len(seen) < limit:
+        f = work.pop()
+        for c in f.calls():
+            b = it.callee_body(c)
+            if b is not None and b.key not in seen:
+                seen[b.key] = b
+                work.append(b)
+    return seen
+
+
+def r07_5(ctx, fx):
+    """at most once: the close report has a single call site in the closure of each connection loop, and that site is not
+    inside a loop"""
+    for key, hit in LOOPS.items():
+        if not fx.has(key) or "run_event_loop" in key:
+            continue
+        fn = fx.fn(key)
+        it = Inter(fx, hit)
+        sites = []
+        for k, b in _local_closure(fx, it, fn).items():
+            if re.search(r"ProtocolSet::report_connection_closed", k):
+                continue
+            for c in b.calls(hit):
+                sites.append((k, c, b))
+        if "webrtc" in key:
+            continue
+        ok = len(sites) == 1 and sites[0][1].node not in sites[0][2].reach([sites[0][1].node], after=True)
+        ctx.ob("R07.5", "%s/close-report-has-one-call-site-outside-loops" % short(key), ok, site=sites[0][2].site(sites[0][1].node) if sites else "", cfg=fx.cfg,
+               detail="call sites of the close report in the loop's call closure: %s" % [(short(k), b.site(c.node)) for k, c, b in sites])
 
 
 def r07_2(ctx, fx):
@@ -167,6 +203,7 @@ def run(ctx):
     for cfg in ctx.configs():
         fx = ctx.facts(cfg)
         r07_1(ctx, fx)
+        r07_5(ctx, fx)
         if cfg == "default":
             r07_2(ctx, fx)
             r07_3(ctx, fx)
